@@ -4,7 +4,7 @@
    forall i < rows M, mvprod (rows M) (ent M) (fun k => nth k x zero) i = nth i b zero. *)
 From Coq Require Import List Arith ZArith Lia.
 From OV Require Import Base.Panic Base.Arith Base.Flat Model.Vector Model.Matrix Model.Solve Inst.QcInst
-  Proofs.Matrix Proofs.SolveBase Proofs.SolveBack Proofs.SolveGauss Proofs.Solve Proofs.SolveComplete Proofs.SolveQc Proofs.SolveR Proofs.SolveC Proofs.SolvePanic Proofs.SolveMul.
+  Proofs.Matrix Proofs.SolveBase Proofs.SolveBack Proofs.SolveGauss Proofs.Solve Proofs.SolveComplete Proofs.SolveQc Proofs.SolveR Proofs.SolveC Proofs.SolvePanic Proofs.SolveMul Proofs.SolvePivot Proofs.SolvePivotInst.
 Import ListNotations.
 
 (* C01, Gaussian elimination half: whatever solve_basic returns solves the system (any field, any size). *)
@@ -218,3 +218,29 @@ Print Assumptions solve_basic_correct_C.
 
 (* separator for the driver's parser of Print Assumptions output (an axiom list is followed by a closed block) *)
 Print Assumptions solve_basic_sound.
+
+(* The mechanism the property names ("the largest |a_ik| on or below the diagonal is swapped into the pivot
+   row"): over any arithmetic whose `ltb` is a strict weak order (OrdLaws of Proofs/SolvePivot.v; no field law
+   is needed) the pivot search returns a row of maximal magnitude in the scanned part of the column -- or, when
+   no magnitude there exceeds zero, its initial index 0 (the fall-back that solve_basic_panic_nonvacuous shows). *)
+Theorem pivot_rule_maximal : forall (A : Arith), OrdLaws A -> forall (m : matrix A) (col start : nat),
+  wf m -> col < cols m -> start <= rows m ->
+  exists p, max_abs_in_column m col start = Ok p /\
+    ((p = 0 /\ forall i, start <= i < rows m -> ltb zero (abs (ent m i col)) = false) \/
+     (start <= p < rows m /\ ltb zero (abs (ent m p col)) = true /\
+      forall i, start <= i < rows m -> ltb (abs (ent m p col)) (abs (ent m i col)) = false)).
+Proof. intros A OL m col start. exact (max_abs_maximal OL m col start). Qed.
+Check pivot_rule_maximal : forall (A : Arith), OrdLaws A -> forall (m : matrix A) (col start : nat),
+  wf m -> col < cols m -> start <= rows m ->
+  exists p, max_abs_in_column m col start = Ok p /\
+    ((p = 0 /\ forall i, start <= i < rows m -> ltb zero (abs (ent m i col)) = false) \/
+     (start <= p < rows m /\ ltb zero (abs (ent m p col)) = true /\
+      forall i, start <= i < rows m -> ltb (abs (ent m p col)) (abs (ent m i col)) = false)).
+Print Assumptions pivot_rule_maximal.
+
+Example pivot_rule_maximal_nonvacuous :
+  OrdLaws AQ /\ OrdLaws AR /\ wf M3 /\ 0 < cols M3 /\ 0 <= rows M3 /\ max_abs_in_column M3 0 0 = Ok 2.
+Proof.
+  split; [exact AQ_OrdLaws|]. split; [exact AR_OrdLaws|]. split; [reflexivity|].
+  split; [cbn; lia|]. split; [cbn; lia|]. vm_compute. reflexivity.
+Qed.
